@@ -41,7 +41,7 @@ type UploadPlan struct {
 	OwnCtx        bool    `json:"own_ctx,omitempty"`   // the caller's context is of a type of its own (its own Done channel), not one of package context's
 	RespBody      string  `json:"resp_body,omitempty"` // script, 2xx answers: "" none | "stall" (3 of 10 announced bytes, then nothing) | "slow" (the rest after 10 fake seconds) | "reset" (an error after 3 bytes)
 	AnswerDelayNS int64   `json:"answer_delay_ns"`
-	ClosePolicy   string  `json:"close_policy"` // "before-return" | "async"
+	ClosePolicy   string  `json:"close_policy"` // "before-return" | "async" | "with-answer-body" (the request body is let go of when the answer's body is read to its end or closed)
 	CloseDelayNS  int64   `json:"close_delay_ns,omitempty"`
 	CancelAtNS    int64   `json:"cancel_at_ns"` // -1: never; 0: before Create; >0: that long after the start
 	Deadline      bool    `json:"deadline,omitempty"`
@@ -182,6 +182,16 @@ func (tr *upTransport) RoundTrip(req *http.Request) (resp *http.Response, err er
 			tr.status = resp.StatusCode
 		}
 		tr.log.Addf(1, "  transport returns status=%d err=%v (server received %d bytes, eof=%v)", tr.status, err, len(tr.received), tr.sawEOF)
+		if p.ClosePolicy == "with-answer-body" && resp != nil && err == nil && body != nil {
+			// what net/http's own transport does for an answer that arrives before
+			// the upload is over: it lets go of the request body only when the
+			// answer's body has been read to its end or closed
+			resp.Body = &hookBody{ReadCloser: resp.Body, done: func() {
+				body.Close()
+				tr.closed = time.Now()
+			}}
+			return
+		}
 		closeBody()
 	}()
 	if e := ctx.Err(); e != nil {
@@ -342,6 +352,26 @@ func goroutineIDs(all string, _ bool) map[string]bool {
 		out[id] = true
 	}
 	return out
+}
+
+// hookBody tells the transport when the caller is done with an answer's body.
+type hookBody struct {
+	io.ReadCloser
+	once sync.Once
+	done func()
+}
+
+func (b *hookBody) Read(p []byte) (int, error) {
+	n, err := b.ReadCloser.Read(p)
+	if err != nil {
+		b.once.Do(b.done)
+	}
+	return n, err
+}
+
+func (b *hookBody) Close() error {
+	b.once.Do(b.done)
+	return b.ReadCloser.Close()
 }
 
 // lazyBody is the body of an answer that does not arrive in one piece: three
@@ -748,7 +778,7 @@ func GenC18Upload(seed uint64, tier string) *Plan {
 		}
 		p.PausesNS = append(p.PausesNS, d)
 	}
-	p.ClosePolicy = rt.Pick(r, []string{"before-return", "before-return", "async"})
+	p.ClosePolicy = rt.Pick(r, []string{"before-return", "before-return", "async", "with-answer-body"})
 	if p.ClosePolicy == "async" {
 		p.CloseDelayNS = rt.Pick(r, []int64{1, 1e6, 1e9, 30e9})
 	}
